@@ -41,7 +41,14 @@ func (c *Client) keepaliveLoop(ctx context.Context) error {
 	for {
 		select {
 		case <-ticker.C:
-			if err := c.Ping(); err != nil {
+			// A tick can be already waiting when the client leaves the
+			// active state.
+			if c.state.Get() != util.StateActive {
+				continue
+			}
+			// Must not use c.Ping() here: it waits for all client's
+			// goroutines (including this one) if the client is cancelled.
+			if _, err := c.ping(); err != nil {
 				return err
 			}
 
